@@ -37,6 +37,36 @@ CHECKS = {
         text="For each generated multiset of 2-6 exact operands the sum/product/max/min/and/or is constructed in all (n<=4) or 30 sampled permutations, through the n-ary constructor and through every full binary bracketing of the binary one; the driver's all-pairs eq matrix, hashes, printed forms and raw dumps (up to dictionary order) must coincide. Exploration.",
         note="Operands are exact by construction (no floats). Exceptions raised in only some orders are counted, not reported.",
         variants=["main"]),
+    "C21": dict(
+        engine="hy", technique="property-based testing: generated UIntPoly/URatPoly/UExprPoly operands (zero, constants, sparse/dense, 1-300 bit mixed-sign coefficients, constructed Kronecker-boundary pairs) against schoolbook Fraction-dictionary arithmetic; from_basic/as_symbolic round trip against expand",
+        text="Every univariate polynomial operation (add sub neg mul pow divides eval multieval get_coeff get_degree get_lc diff, from_dict/from_vec/from_basic/as_symbolic) on generated and enumerated operands is compared with an independent schoolbook reference; hangs on trivially small inputs are nominated and reported. Exploration.",
+        note="Trusts Python Fractions and the raw dump. Expression coefficients are polynomials in one symbol compared by value.",
+        variants=["main"]),
+    "C22": dict(
+        engine="hy", technique="property-based testing: MIntPoly/MExprPoly over generated pairs of variable lists (equal, overlapping, nested, disjoint, empty) against monomial-dictionary arithmetic over the union of variables",
+        text="add/sub/neg/mul/pow/eval/diff/as_symbolic/from_basic of multivariate polynomials are compared with a Python monomial-dictionary model; the result must live over the union of the variables with no zero or repeated monomials. Exploration.",
+        note="Trusts Python Fractions and the raw dump.",
+        variants=["main"]),
+    "C23": dict(
+        engine="hy", technique="property-based testing: exhaustive pairs over GF(2), GF(3), GF(5) of small degree plus generated polynomials over all primes <= 97; brute-force mod-p list arithmetic and independent irreducibility tests (Rabin, sympy second opinion) as oracle; factorisations validated as multisets",
+        text="All GaloisFieldDict operations and the square-free / distinct-degree / equal-degree / full factorisation routines are judged against arithmetic modulo p: exhaustive for tiny fields and degrees, generated (incl. constructed products of known irreducibles with multiplicities) beyond. Exploration; exhaustive on the enumerated boxes.",
+        note="Preconditions of ddf/edf are met by construction. Known finding KF-C23-02 (_gf_trace_map) is excluded by construction while listed.",
+        variants=["main"]),
+    "C24": dict(
+        engine="hy", technique="property-based testing: dense matrices constructed per routine precondition (arbitrary, singular, pivot-requiring, L*U, SPD as L*D*L^T, full column rank) over rationals / Gaussian rationals, judged against exact Fraction linear algebra and by reconstruction of factorisations",
+        text="Determinants (3 algorithms), inverses (5), solvers (9), LU/LDL/QR/Cholesky/fraction-free factorisations, rref, eliminations, char poly, structural ops and predicates on generated 1-6 x 1-6 exact matrices are compared with an independent exact model; factorisations must multiply back. Exploration.",
+        note="Routines are judged only inside their documented precondition; outside it only absence of crashes is required. KF-C24-03 (is_lower/is_upper names swapped, pinned by the suite) is a listed known finding.",
+        variants=["main"]),
+    "C25": dict(
+        engine="hy", technique="property-based testing (model-based, histories): CSR matrices built from arrays / unsorted COO with duplicates and mutated by generated set/get histories, compared after every step with a dense Python model and an independent canonical-format check",
+        text="After every step of a generated history the CSR arrays must be canonical (own Python check) and equal the dense model; every CSR operation (transpose, conjugate, elementwise product, binop add/sub/mul, matmat, diagonal, scaling, jacobian, from_coo) must agree with the dense operation. Exploration.",
+        note="An is_canonical assertion firing inside a judged operation is a violation of this property.",
+        variants=["main"]),
+    "C26": dict(
+        engine="hy", technique="property-based testing: shape-consistent matrix-expression trees over concrete leaves, every node judged: dense Gaussian-rational evaluation of the returned object versus the recipe, and soundness of size and the 8 structural predicates against the concrete matrix",
+        text="Generated and enumerated trees of matrix_add / matrix_mul / hadamard_product / transpose / conjugate / trace over identity, zero, diagonal and dense leaves are evaluated densely in Python on both sides; definite predicate answers must agree with the concrete matrix (indeterminate is always allowed). Exploration.",
+        note="Value preservation is judged for symbol-free trees; symbolic dimensions only for size logic.",
+        variants=["main"]),
 }
 
 NOT_APPLICABLE = {}
